@@ -409,6 +409,8 @@ class _Strip(ast.NodeTransformer):
 
 
 def _norm(fn):
+    from . import tables_shape
+    fn = tables_shape._alpha(fn)            # consistent renaming of a local variable is not a change of shape
     fn = _Strip().visit(copy.deepcopy(fn))
     return ast.dump(fn, annotate_fields=True, include_attributes=False)
 
